@@ -43,6 +43,8 @@ type Case struct {
 	Lines   []vh.SyslogLine `json:"lines"`
 	Workers int             `json:"workers"` // >1: concurrent variant, goroutines with private parsers sharing one allocator
 	Long    *LongSpec       `json:"long,omitempty"`
+	Batch   int             `json:"batch,omitempty"` // >1: the long-lived pipeline parses this many lines (parser + input extractions) before the
+	// worker stage transforms and serializes them, as the agent does (records of one read are in flight together)
 }
 
 // LongSpec turns Lines into a pool: the stream is N records, each a pool line with its own valid timestamp (date, 0-9
@@ -204,6 +206,23 @@ func run1(c Case) vh.Result {
 					mu.Unlock()
 				}
 				// each worker processes the whole stream in a rotated order; outcome recorded for its own share
+				if c.Batch > 1 {
+					for k := 0; k < len(inputs); k += c.Batch {
+						var idx []int
+						var lines [][]byte
+						for j := k; j < min(k+c.Batch, len(inputs)); j++ {
+							i := (j + w*len(inputs)/workers) % len(inputs)
+							idx = append(idx, i)
+							lines = append(lines, append([]byte(nil), inputs[i]...))
+						}
+						for n, r := range sp.ProcessBatch(lines) {
+							if idx[n]%workers == w {
+								got[idx[n]] = outcome{r.Parsed, r.Passed, r.Streams}
+							}
+						}
+					}
+					return
+				}
 				for k := range inputs {
 					i := (k + w*len(inputs)/workers) % len(inputs)
 					in := append([]byte(nil), inputs[i]...) // the listener's line buffer is overwritten after the call
@@ -245,6 +264,9 @@ func run1(c Case) vh.Result {
 	if workers > 1 {
 		res.Classes = append(res.Classes, "concurrent")
 	}
+	if c.Batch > 1 {
+		res.Classes = append(res.Classes, "records-in-flight-together(batch)")
+	}
 	pooled := false
 	for _, in := range inputs {
 		if len(in) > 1024 {
@@ -280,6 +302,9 @@ func gen(t *rapid.T) Case {
 		prev = vh.GenRealisticLine(t, 3000)
 		c.Lines = append(c.Lines, prev)
 	}
+	if rapid.Bool().Draw(t, "batched") {
+		c.Batch = rapid.IntRange(2, 24).Draw(t, "batch")
+	}
 	c.Workers = 1
 	if os.Getenv("VERIF_RACE") != "" || rapid.IntRange(0, 5).Draw(t, "conc") == 0 {
 		c.Workers = rapid.IntRange(2, 6).Draw(t, "workers")
@@ -298,6 +323,9 @@ func genLong(t *rapid.T) Case {
 	for i := 0; i < n; i++ {
 		c.Lines = append(c.Lines, vh.GenRealisticLine(t, 3000))
 	}
+	if rapid.Bool().Draw(t, "batched") {
+		c.Batch = rapid.SampledFrom([]int{2, 8, 64, 500}).Draw(t, "batch")
+	}
 	c.Workers = 1
 	c.Long = &LongSpec{N: rapid.IntRange(200, 1500).Draw(t, "n"), Seed: rapid.Uint64().Draw(t, "seed"), LowPool: rapid.Bool().Draw(t, "lowPool")}
 	return c
@@ -313,6 +341,6 @@ func TestC12LongStreams(t *testing.T) {
 func TestC12Isolation(t *testing.T) {
 	vh.Run(t, vh.Spec[Case]{
 		Name: "isolation", Gen: gen, Run: run1, Quick: 1500, Thorough: 15000,
-		Rule: "streams of 2-24 syslog lines (pools of hosts/apps/sources that drive the sample configuration's branches, arbitrary tokens, optional fields, escapes, multi-line, e-mails; short, around the 1024-byte pooling threshold and large; repetitions) processed on one long-lived allocator+parser+extractions+transforms+serializers (caller buffer overwritten after each call, GC disabled during the case so that sync.Pool reuse happens) versus each record alone on fresh instances; sample configuration (two outputs) and generated configurations without sampled drops; 1 in 6 cases (all in the -race run) with 2-6 goroutines sharing one allocator; oracle = serialized output per record and per output identical; non-trivial = a LogRecord object was reused after a record with a different set of non-empty fields (pointer identity, measured)",
+		Rule: "streams of 2-24 syslog lines (pools of hosts/apps/sources that drive the sample configuration's branches, arbitrary tokens, optional fields, escapes, multi-line, e-mails; short, around the 1024-byte pooling threshold and large; repetitions) processed on one long-lived allocator+parser+extractions+transforms+serializers, one record at a time or, in half of the cases, in batches that are parsed first and transformed+serialized afterwards as in the agent's two stages (caller buffer overwritten after each parse, GC disabled during the case so that sync.Pool reuse happens) versus each record alone on fresh instances; sample configuration (two outputs) and generated configurations without sampled drops; 1 in 6 cases (all in the -race run) with 2-6 goroutines sharing one allocator; oracle = serialized output per record and per output identical; non-trivial = a LogRecord object was reused after a record with a different set of non-empty fields (pointer identity, measured)",
 	})
 }
